@@ -64,9 +64,16 @@ NoKeys == /\ Ev.ev = "nokeys"
           /\ Ev.h \in DOMAIN latest
           /\ UNCHANGED <<acc, newest, latest>>
 
+(*   {"ev":"forged","h":H,"s":N,"ok":B}  a copy of frame N that does not authenticate (a bit of its MAC or of its   *)
+(*        sequence field flipped on the wire) was delivered: it is refused and leaves no trace in the receiver   *)
+Forged == /\ Ev.ev = "forged"
+          /\ Ev.h \in DOMAIN acc
+          /\ ~Ev.ok
+          /\ UNCHANGED <<acc, newest, latest>>
+
 TraceNext == /\ l <= Len(Trace)
              /\ l' = l + 1
-             /\ (Reset \/ Check \/ TCheck \/ OwnSend \/ NoKeys)
+             /\ (Reset \/ Check \/ TCheck \/ OwnSend \/ NoKeys \/ Forged)
 
 TraceSpec == TraceInit /\ [][TraceNext]_tvars
 
